@@ -210,7 +210,30 @@ def run(chk):
                 pname = f["params"][1]["n"]
                 want = ("fn", "lookup", ("table", avar["id"]), ("enumsym", et, pname))
                 ok = isinstance(st, ev.Obj) and st.type == "std::ostream" and tuple(_unwrap_sv(x) for x in st.f["out"].items) == (want,) and isinstance(r, ev.LV) and r.loc == args[0].loc
-                (chk.holds if ok else chk.violated)("R5", "operator<<(%s)" % se, "stream receives %s" % ev.show(st)[:300], short(f["loc"]))
+                if not ok:
+                    # not the lookup idiom (a switch, literals, ...): decide it enumerator by enumerator against the table
+                    rows = dict((k[2], v) for k, v in (M.T.rows("abbr", et) or []) if isinstance(k, tuple))
+                    wrong = []
+                    for en in M.T.enumerators(et):
+                        E2 = ev.Evaluator(F)
+                        r2, _, a2 = E2.run_symbolic(f, concrete={1: ("enum", et, en)})
+                        st2 = E2.load(a2[0])
+                        items = [_unwrap_sv(x) for x in st2.f["out"].items] if isinstance(st2, ev.Obj) and st2.type == "std::ostream" else None
+                        text = None
+                        if items is not None and len(items) == 1:
+                            it = items[0]
+                            if isinstance(it, ev.Str) and all(isinstance(p_, str) for p_ in it.parts):
+                                text = "".join(it.parts)
+                            elif isinstance(it, str):
+                                text = it
+                        if text != rows.get(en) or not (isinstance(r2, ev.LV) and r2.loc == a2[0].loc):
+                            wrong.append("%s inserts %r, Abbreviation gives %r" % (en, text if text is not None else ev.show(st2)[:80], rows.get(en)))
+                    if wrong:
+                        chk.violated("R5", "operator<<(%s)" % se, "; ".join(wrong[:3]), short(f["loc"]))
+                    else:
+                        chk.holds("R5", "operator<<(%s)" % se, "inserts the abbreviation of each of the %d enumerators (decided one by one)" % len(rows), short(f["loc"]))
+                else:
+                    chk.holds("R5", "operator<<(%s)" % se, "stream receives %s" % ev.show(st)[:300], short(f["loc"]))
             except ev.Inconclusive as x:
                 chk.inconclusive("R5", "operator<<(%s)" % se, str(x), short(f["loc"]))
         elif et == "PhQ::ConstitutiveModel::Type" and not ops:
